@@ -100,9 +100,11 @@ impl Monitor for Mon {
         let mut v = vec![];
         if w.reqs.len() < 3 && w.awaiting().len() < 2 {
             v.push(Event::Send { app: 0 });
+            // application list that already contains a FINGERPRINT (must be replaced, still last)
+            v.push(Event::Send { app: 1 });
         }
-        if w.inds.is_empty() && !matches!(w.cfg.mech, Mech::LongTerm) {
-            v.push(Event::Indicate { app: 0 });
+        if w.inds.len() < 2 && !matches!(w.cfg.mech, Mech::LongTerm) {
+            v.push(Event::Indicate { app: w.inds.len() });
         }
         if !w.awaiting().is_empty() {
             v.push(Event::Timer);
